@@ -1,4 +1,5 @@
 import TF.Proofs.MmrSucc
+import TF.Proofs.MmrMember
 /-!
 # C12 — MMR successor proofs are complete, sound and total
 
@@ -193,19 +194,18 @@ def new_from_batch_append_verifies_statement : Prop :=
     ∃ new paths, Acc.appendAll H leafs old = some new ∧ newFromBatchAppend H dflt old leafs = some paths ∧
       verify H dflt paths old new = some true
 
-/-- what is proved of it: for accumulators over a leaf list `g`, *if* the appends yield the from-scratch peaks (C11)
-    and `new_from_batch_append` returns the honest sibling digests (the node-index theory of C16; checked for every
-    pair with old + appended ≤ 64 over a free hash algebra by the test `mmrs free_check`, and on the implementation
-    by the correspondence), then the generated proof verifies — for all sizes below `2^64`. -/
+/-- what is proved of it: for accumulators over a leaf list `g`, appending `g m … g (m+k-1)` to the accumulator of the
+    first `m` leaves yields the from-scratch accumulator of the first `m+k` leaves (proved), and *if*
+    `new_from_batch_append` returns the honest sibling digests (the node-index theory of C16; checked for every pair
+    with old + appended ≤ 64 over a free hash algebra by the test `mmrs free_check`, and on the implementation by the
+    correspondence), then the generated proof verifies — for all sizes below `2^64`. -/
 theorem new_from_batch_append_verifies_partial (g : Nat → D) (m k : Nat) (hn : m + k < 2 ^ 64)
-    (happend : Acc.appendAll H ((List.range k).map (fun i => g (m + i))) ⟨m, peaks H m g⟩
-      = some ⟨m + k, peaks H (m + k) g⟩)
     (hgen : newFromBatchAppend H dflt ⟨m, peaks H m g⟩ ((List.range k).map (fun i => g (m + i)))
       = some (succPathsOf H g m (m + k))) :
     ∃ new paths, Acc.appendAll H ((List.range k).map (fun i => g (m + i))) ⟨m, peaks H m g⟩ = some new ∧
       newFromBatchAppend H dflt ⟨m, peaks H m g⟩ ((List.range k).map (fun i => g (m + i))) = some paths ∧
       verify H dflt paths ⟨m, peaks H m g⟩ new = some true :=
-  ⟨_, _, happend, hgen, honest_proof_verifies H dflt g m (m + k) (by omega) hn⟩
+  ⟨_, _, appendAll_spec H g k m hn, hgen, honest_proof_verifies H dflt g m (m + k) (by omega) hn⟩
 
 /-! concrete accepted / rejected triples (non-vacuity of the hypotheses above), hash `a, b ↦ a + 2·b` on `Nat` -/
 example : verify (fun a b : Nat => a + 2 * b) 0 [5] ⟨1, [3]⟩ ⟨2, [13]⟩ = some true := by decide +kernel
